@@ -5,7 +5,7 @@ from pv import common, distgen
 
 RULE = ("tiny instances (<= 5 computations, <= 3 agents; constraints hyper-graph for oilp_cgdp, factor graph for "
         "ilp_fgdp), harness footprints / symmetric communication loads, capacities ample / exact / small, hosting costs "
-        "with zeros, symmetric routes; the ILP models are solved by PuLP's bundled CBC (GLPK_CMD rebound: glpsol is not "
+        "with zeros, routes symmetric or (50%) with agent tables disagreeing on a link's cost; the ILP models are solved by PuLP's bundled CBC (GLPK_CMD rebound: glpsol is not "
         "installed); oracle: brute-force enumeration of ALL mappings satisfying the method's hard rules (capacity, every "
         "computation once, cost-0 pins, and for ilp_fgdp every agent hosts something), minimum of the method's OWN "
         "distribution_cost; the returned distribution's cost must equal it (1e-6) and Impossible must mean no feasible "
@@ -114,14 +114,16 @@ def shape_instance(rng, inst):
     if rng.random() < 0.7:
         for a in inst["agents"]:
             a["capacity"] = rng.choice([total, total + 5, max(3, total // 2 + 2)])
-    # routes: contrasted and symmetric
+    # routes: contrasted; symmetric, or (half of the instances) each agent's own table gives its own cost for a link
+    asym = rng.random() < 0.5
+    inst["asymmetric_routes"] = asym
     for a in inst["agents"]:
         a["routes"] = {}
     for i, x in enumerate(anames):
         for y in anames[i + 1:]:
             r = rng.choice([1, 3, 9, 20])
             inst["agents"][i]["routes"][y] = r
-            inst["agents"][anames.index(y)]["routes"][x] = r
+            inst["agents"][anames.index(y)]["routes"][x] = rng.choice([1, 3, 9, 20]) if asym else r
     mode = rng.choice(["pins", "pins", "nonzero", "default0"])
     for a in inst["agents"]:
         a["default_hosting_cost"] = 0 if mode == "default0" else rng.choice([1, 2, 5])
@@ -144,7 +146,7 @@ def worker(job):
     for i in range(job["lo"], job["hi"]):
         rng = common.rng_for(seed, "C24", i)
         method = ["oilp_cgdp", "ilp_fgdp"][i % 2]
-        inst = distgen.gen_instance(rng, graph="constraints_hypergraph" if method == "oilp_cgdp" else "factor_graph", tiny=True)
+        inst = distgen.gen_instance(rng, graph="constraints_hypergraph" if method == "oilp_cgdp" else "factor_graph", tiny=True, asymmetric_routes=True)
         inst["hints"] = {"must_host": {}, "host_with": {}}
         shape_instance(rng, inst)
         try:
@@ -158,6 +160,7 @@ def worker(job):
         R.case(common.stable_hash([inst, method]), nontrivial,
                sample={"method": method, "outcome": outcome, "info": info, "agents": inst["agents"], "footprints": inst["footprints"]} if nontrivial and i % 30 == 0 else None)
         R.bump("outcomes", "%s:%s" % (method, outcome))
+        R.bump("routes", "asymmetric" if inst.get("asymmetric_routes") else "symmetric")
         R.count("mappings_enumerated", info.get("feasible", 0))
         R.count("optimum_compared", 1 if outcome == "mapping" else 0)
         for k, m in P:
@@ -168,7 +171,7 @@ def worker(job):
 def main(chk, tier, seed):
     chk.rule = RULE
     chk.assumptions = ["CBC substituted for the missing glpsol binary", "symmetric communication loads", "at most one agent with an explicit cost 0 per computation, or default 0 everywhere"]
-    n = 260 if tier == "quick" else 8000
+    n = 400 if tier == "quick" else 8000
     common.run_chunked(chk, "c24", n, nchunks=16 if tier == "quick" else 64, timeout=3000)
     chk.inconclusive_if(chk.counters.get("optimum_compared", 0) < 60 and not chk.violations, "too few optimal distributions compared")
 
